@@ -104,6 +104,10 @@ pub const CARRIERS: &[(&str, &str, &str)] = &[
     ("plain.seq-count", "int", "range(14).map((v_x: int)->{v_x + 1}).count((v_x: int)->{v_x > 9})"),
     ("plain.seq-hash", "bool", "hash(range(14).map((v_x: int)->{v_x + 1}).to_array()) == hash(range(1, 15).to_array())"),
     ("plain.seq-to_str", "int", "range(14).map((v_x: int)->{v_x + 1}).to_array().to_str().len()"),
+    ("gen.map-get-later", "int", "range(5).to_generator().map(v_cb).get(3)"),
+    ("gen.map-last", "int", "range(4).to_generator().map(v_cb).last()"),
+    ("gen.map-min", "int", "range(4).to_generator().map(v_cb).min()"),
+    ("gen.map-skip-get", "int", "range(5).to_generator().map(v_cb).skip(2).get(1)"),
     ("gen.chunks-map", "int", "range(5).to_generator().map(v_cb).chunks(2).len()"),
     ("gen.enumerate-map", "int", "range(4).to_generator().map(v_cb).enumerate().to_array().len()"),
     ("gen.take-skip-map", "int", "count().to_generator().map(v_cb).skip(1).take(3).to_array().len()"),
